@@ -61,6 +61,16 @@ func checkC02(r *Report) {
 	nPE := parseErrorUsedRule(r, loadResolve("", true), "C02/PARSE-ERROR-USED", "semver")
 	r.floor("C02/PARSE-ERROR-USED", "strconv number parsers called in package semver", nPE, 5)
 	// PEP440-TEXT-FOLDED
+	// PEP440-KEY-COMPLETE: the PEP 440 comparator answers "equal" only after reading every part of both versions
+	nKF, nKE := keyCompleteRule(r, loadResolve("", true), "C02/PEP440-KEY-COMPLETE")
+	r.floor("C02/PEP440-KEY-COMPLETE", "fields of the parsed PEP 440 extension", nKF, 8)
+	r.floor("C02/PEP440-KEY-COMPLETE/EXITS", "exits of the comparator that can return 0", nKE, 2)
+	// PREFILTER-ALPHABET: the letters the pre-filter tolerates cover the parser's keywords
+	nPA := prefilterAlphabetRule(r, p, "C02/PREFILTER-ALPHABET")
+	r.floor("C02/PREFILTER-ALPHABET", "PEP 440 keywords read from the tables", nPA, 13)
+	// ZERO-BY-VALUE: no element text is compared with a digit literal
+	nZV := zeroByValueRule(r, loadResolve("", true), "C02/ZERO-BY-VALUE")
+	r.floor("C02/ZERO-BY-VALUE", "string comparisons examined in package semver", nZV, 40)
 	nTF := textFoldedRule(r, loadResolve("", true), "C02/PEP440-TEXT-FOLDED", "pep440")
 	r.floor("C02/PEP440-TEXT-FOLDED", "stores to string fields of the parsed PEP 440 extension", nTF, 2)
 
@@ -433,6 +443,8 @@ func checkC03(r *Report) {
 	recycleCompleteRule(r, loadResolve("", true), "C03/RECYCLE-COMPLETE")
 	unitOpenRule(r, loadResolve("", true), "C03/UNIT-OPEN")
 	nCC := compareAfterCompleteRule(r, loadResolve("", true), "C03/COMPARE-AFTER-COMPLETE")
+	nMB := markersBothRule(r, loadResolve("", true), "C03/MARKERS-BOTH")
+	r.floor("C03/MARKERS-BOTH", "functions of package semver that compare one number with both markers", nMB, 1)
 	r.floor("C03/COMPARE-AFTER-COMPLETE", "completions (fill/setTail) of bounds in package semver", nCC, 4)
 }
 
